@@ -36,16 +36,16 @@ open Ccp.Py Ccp.Tree
 /-- a word and the whitespace after it -/
 abbrev Tok := Str × Str
 
+/-- put a word (or the first characters of one) in front of an already lexed rest -/
+def consWord (w : Str) (r : Str × List Tok) : Str × List Tok :=
+  match r with
+  | ([], (w', g) :: ts) => ([], (w ++ w', g) :: ts)
+  | (g, ts) => ([], (w, g) :: ts)
+
 /-- leading whitespace, then the words with the gap after each of them -/
 def lex : Str → Str × List Tok
   | [] => ([], [])
-  | c :: cs =>
-    let r := lex cs
-    if isSpace c then (c :: r.1, r.2)
-    else
-      match r.1, r.2 with
-      | [], (w, g) :: ts => ([], (c :: w, g) :: ts)
-      | g, ts => ([], ([c], g) :: ts)
+  | c :: cs => if isSpace c then (c :: (lex cs).1, (lex cs).2) else consWord [c] (lex cs)
 
 /-- `text.split()` -/
 def wordsOf (s : Str) : List Str := (lex s).2.map (·.1)
